@@ -174,6 +174,84 @@ theorem c04_other_credentials_rejected {cfg : Cfg} {u p : Bytes} (hb : cfg.basic
     have := (c04_auth_control_iff hb hn pa).mp hf
     exact absurd rfl (h u p this)
 
+/-- equality of the PAIR, not of anything derived from it: the control passes iff the first
+    Proxy-Authorization value carries (scheme `Basic` in any case, one space, strict base64) a
+    credentials string that is exactly `user`, the first colon, `password` — user and password
+    compared separately, the boundary being the FIRST colon of the decoded string -/
+theorem c04_auth_pair_iff (u p v : Bytes) :
+    authenticated u p v = true ↔ ∃ cs, basicPayload v = some cs ∧ cs = u ++ 58 :: p ∧ (58 : UInt8) ∉ u := by
+  rw [authenticated_iff, parseBasicAuth_eq]
+  constructor
+  · intro h
+    cases hb : basicPayload v with
+    | none => rw [hb] at h; cases h
+    | some cs =>
+      rw [hb] at h
+      exact ⟨cs, rfl, (splitFirstColon_iff cs u p).mp h⟩
+  · rintro ⟨cs, hb, hc⟩
+    rw [hb]
+    exact (splitFirstColon_iff cs u p).mpr hc
+
+/-- the decoded pair of a value is unique: a value cannot authenticate two different configured pairs -/
+theorem c04_auth_pair_unique {u p u' p' v : Bytes} (h : authenticated u p v = true) (h' : authenticated u' p' v = true) :
+    u' = u ∧ p' = p := by
+  rw [authenticated_iff] at h h'
+  rw [h] at h'
+  cases h'
+  exact ⟨rfl, rfl⟩
+
+/-- shifted-boundary (and every other "near") credentials are rejected: the canonical encoding of a
+    pair `(u', p')` that differs from the configured `(u, p)` in the user OR in the password fails
+    the control — in particular when `u' ++ p' = u ++ p` (use:rpass for user:pass), when the two are
+    swapped, prefixes, suffixes, case variants, or when either is empty -/
+theorem c04_shifted_boundary_rejected {cfg : Cfg} {u p : Bytes} (hb : cfg.basicAuth = some (u, p)) (hn : Bytes)
+    {u' p' : Bytes} (hu' : (58 : UInt8) ∉ u') (hne : u' ≠ u ∨ p' ≠ p) :
+    Control.fails cfg hn (basicAuthValue u' p') .basicAuth = true := by
+  apply c04_other_credentials_rejected hb
+  intro a b hab
+  rw [parseBasicAuth_basicAuthValue u' p' hu'] at hab
+  cases hab
+  intro he
+  cases he
+  rcases hne with h | h <;> exact h rfl
+
+/-- a user name with a colon can never be presented: the credentials string `u':p'` with a colon in
+    `u'` is read as (part of `u'` before its first colon, rest) -/
+theorem c04_colon_in_user_reads_differently (u' p' a b : Bytes) :
+    parseBasicAuth (basicAuthValue (a ++ 58 :: u') p') = some (a, b) → (58 : UInt8) ∉ a → b = u' ++ 58 :: p' := by
+  intro h ha
+  rw [parseBasicAuth_eq, basicPayload_basicAuthValue] at h
+  simp only [Option.bind_some] at h
+  obtain ⟨hc, _⟩ := (splitFirstColon_iff _ a b).mp h
+  have : a ++ 58 :: u' ++ 58 :: p' = a ++ 58 :: (u' ++ 58 :: p') := by simp
+  rw [this] at hc
+  have := List.append_cancel_left hc
+  simp only [List.cons.injEq, true_and] at this
+  exact this.symm
+
+-- configured user:pass — the shifted boundaries use:rpass, userp:ass, :userpass, userpass: have the same
+-- concatenation and are all rejected; so are swapped, doubled colon, empty parts, case variants
+example :
+    let cfg : Cfg := { C04.exCfg with basicAuth := some (bs "user", bs "pass") }
+    (bs "use" ++ bs "rpass" = bs "user" ++ bs "pass") ∧
+    Control.fails cfg [] (basicAuthValue (bs "user") (bs "pass")) .basicAuth = false ∧
+    Control.fails cfg [] (basicAuthValue (bs "use") (bs "rpass")) .basicAuth = true ∧
+    Control.fails cfg [] (basicAuthValue (bs "userp") (bs "ass")) .basicAuth = true ∧
+    Control.fails cfg [] (basicAuthValue [] (bs "userpass")) .basicAuth = true ∧
+    Control.fails cfg [] (basicAuthValue (bs "userpass") []) .basicAuth = true ∧
+    Control.fails cfg [] (basicAuthValue (bs "pass") (bs "user")) .basicAuth = true ∧
+    Control.fails cfg [] (basicAuthValue (bs "user") (bs ":pass")) .basicAuth = true ∧
+    Control.fails cfg [] (basicAuthValue (bs "user") []) .basicAuth = true ∧
+    Control.fails cfg [] (basicAuthValue [] (bs "pass")) .basicAuth = true ∧
+    Control.fails cfg [] (basicAuthValue (bs "User") (bs "pass")) .basicAuth = true ∧
+    Control.fails cfg [] (basicAuthValue (bs "user") (bs "pass ")) .basicAuth = true := by
+  with_unfolding_all decide
+
+-- a password may contain colons: user:p:w d is the pair (user, p:w d), not (user:p, w d)
+example : parseBasicAuth (basicAuthValue (bs "user") (bs "p:w d")) = some (bs "user", bs "p:w d") ∧
+    authenticated (bs "user:p") (bs "w d") (basicAuthValue (bs "user") (bs "p:w d")) = false := by
+  with_unfolding_all decide
+
 /-- `base64.StdEncoding`: decoding inverts encoding, for every byte string -/
 theorem c04_base64_roundtrip (x : Bytes) : b64Decode (b64Encode x) = some x := b64Decode_encode x
 
@@ -389,6 +467,78 @@ example :
     requestView r = some (bs "::0", []) ∧ firstFailing cfg (bs "::0") [] = some .localhost ∧
       (requestActions cfg { clientIP := bs "10.0.0.1" } r).length = 0 := by
   with_unfolding_all decide
+
+/-! ## G. The allowed time frame is read on the LOCAL wall clock -/
+
+/-- a frame allows exactly its weekday's hours `[start, end)` -/
+theorem c04_timeframe_matches_iff (t : TimeFrame) (wd h : Nat) :
+    t.matches wd h = true ↔ wd = t.weekday ∧ t.hourStart ≤ h ∧ h < t.hourEnd := by
+  unfold TimeFrame.matches
+  simp [and_assoc]
+
+/-- the control passes iff no frame is configured or some frame contains the local weekday and hour -/
+theorem c04_time_allowed_iff (es : List TimeFrame) (unix offset : Int) :
+    timeAllowedAt es unix offset = true ↔
+      es = [] ∨ ∃ t ∈ es, localWeekday unix offset = t.weekday ∧ t.hourStart ≤ localHour unix offset ∧
+        localHour unix offset < t.hourEnd := by
+  unfold timeAllowedAt timeAllowed
+  simp only [Bool.or_eq_true, List.isEmpty_iff, List.any_eq_true, c04_timeframe_matches_iff]
+
+/-- what the local wall clock is: the instant shifted by the zone offset is day `d`, hour
+    `localHour`, and `r < 3600` seconds; the weekday is that of day `d` (day 0 = Thursday) -/
+theorem c04_local_clock_spec (unix offset : Int) :
+    ∃ d r : Int, unix + offset = d * 86400 + (localHour unix offset : Int) * 3600 + r ∧ 0 ≤ r ∧ r < 3600 ∧
+      localHour unix offset < 24 ∧ ((localWeekday unix offset : Nat) : Int) = (d + 4) % 7 := by
+  refine ⟨(unix + offset) / 86400, (unix + offset) % 3600, ?_, ?_, ?_, localHour_lt _ _, ?_⟩
+  · unfold localHour; omega
+  · omega
+  · omega
+  · unfold localWeekday; omega
+
+/-- the decision depends only on the local weekday and hour — for every instant and every zone
+    offset: two (instant, zone) pairs showing the same local weekday and hour decide alike -/
+theorem c04_timeframe_local_only (es : List TimeFrame) (u1 o1 u2 o2 : Int)
+    (hw : localWeekday u1 o1 = localWeekday u2 o2) (hh : localHour u1 o1 = localHour u2 o2) :
+    timeAllowedAt es u1 o1 = timeAllowedAt es u2 o2 := by
+  unfold timeAllowedAt; rw [hw, hh]
+
+/-- a zone's clock is the UTC clock of the shifted instant: offset `o` at instant `u` decides like
+    offset 0 at instant `u + o` (nothing else about the zone matters) -/
+theorem c04_timeframe_offset_shift (es : List TimeFrame) (unix offset : Int) :
+    timeAllowedAt es unix offset = timeAllowedAt es (unix + offset) 0 := by
+  apply c04_timeframe_local_only <;> simp [localWeekday, localHour]
+
+/-- the decision is constant during a local clock hour (frames are whole hours of the local clock,
+    also in zones whose offset is not a whole number of hours) -/
+theorem c04_timeframe_constant_within_local_hour (es : List TimeFrame) (u1 u2 offset : Int)
+    (h : (u1 + offset) / 3600 = (u2 + offset) / 3600) : timeAllowedAt es u1 offset = timeAllowedAt es u2 offset := by
+  obtain ⟨hw, hh⟩ := localClock_of_hours h
+  exact c04_timeframe_local_only es _ _ _ _ hw hh
+
+/-- it is NOT a function of the UTC clock: the same instant is inside a frame on a UTC machine and
+    outside it two hours east (hour), and inside on UTC but outside one hour east across midnight
+    (weekday) — so code that measures from UTC midnight decides differently -/
+theorem c04_timeframe_not_utc_witness :
+    -- 2026-09-23 (Wednesday) 13:30:00 UTC = 15:30 at +02:00; frame wed/12-14
+    (timeAllowedAt [⟨3, 12, 14⟩] 1790170200 0 = true ∧ timeAllowedAt [⟨3, 12, 14⟩] 1790170200 7200 = false) ∧
+    -- 12:30 UTC = 18:15 at +05:45; frame wed/18-19 is open there and closed on UTC
+    (timeAllowedAt [⟨3, 18, 19⟩] 1790166600 20700 = true ∧ timeAllowedAt [⟨3, 18, 19⟩] 1790166600 0 = false) ∧
+    -- 23:30 UTC Wednesday = 00:30 Thursday at +01:00; frame wed/0-24
+    (timeAllowedAt [⟨3, 0, 24⟩] 1790206200 0 = true ∧ timeAllowedAt [⟨3, 0, 24⟩] 1790206200 3600 = false) ∧
+    -- 01:00 UTC Wednesday = 17:00 Tuesday at -08:00
+    (localWeekday 1790125200 0 = 3 ∧ localWeekday 1790125200 (-28800) = 2 ∧ localHour 1790125200 (-28800) = 17) := by
+  decide
+
+/-- outside every configured frame the time-frame control is the first to fail: the request is
+    refused 451 whatever its credentials and target -/
+theorem c04_outside_time_frame_refused (cfg : Cfg) (hn pa : Bytes) (h : cfg.timeAllowed = false) :
+    firstFailing cfg hn pa = some .timeFrame := by
+  unfold firstFailing order
+  simp [List.find?, Control.fails, h]
+
+example : localWeekday 0 0 = 4 ∧ localHour 0 0 = 0 ∧ localWeekday (-1) 0 = 3 ∧ localHour (-1) 0 = 23 ∧
+    localWeekday 1790170200 19800 = 3 ∧ localHour 1790170200 19800 = 19 ∧
+    localWeekday 1790170200 (-34200) = 3 ∧ localHour 1790170200 (-34200) = 4 := by decide
 
 end C04
 end FwdVerif
